@@ -1,3 +1,337 @@
-use crate::ctx::Ctx;
-pub fn c02(_c: &mut Ctx) {}
-pub fn c03(_c: &mut Ctx) {}
+//! C02 (what is a rule, what is a literal) and C03 (arity, bracket-less form).
+
+use crate::corpus::*;
+use crate::ctx::{type_name, Ctx};
+use crate::observe::Outcome;
+use crate::refsem::{self, MOut};
+use serde_json::{json, Map, Value};
+
+fn obj(pairs: Vec<(String, Value)>) -> Value {
+    let mut m = Map::new();
+    for (k, v) in pairs {
+        m.insert(k, v);
+    }
+    Value::Object(m)
+}
+
+/// A type-valid operand tuple of length `n` for `op` (used where the count is documented),
+/// padded / truncated for other counts.
+pub fn valid_tuple(op: &str, n: usize) -> Vec<Value> {
+    let base: Vec<Value> = match op {
+        "==" | "!=" | "===" | "!==" => vec![json!(1), json!("1")],
+        "!" | "!!" => vec![json!(0)],
+        "<" | "<=" | ">" | ">=" => vec![json!(1), json!(2), json!(3)],
+        "+" | "*" | "max" | "min" => vec![json!(2), json!(3.5), json!("4"), json!(5), json!(6), json!(7)],
+        "-" => vec![json!(5), json!(3)],
+        "/" => vec![json!(6), json!(3)],
+        "%" => vec![json!(7), json!(3)],
+        "merge" => vec![json!([1]), json!(2), json!([[3]]), json!("x"), json!([]), json!(null)],
+        "in" => vec![json!("b"), json!("abc")],
+        "cat" => vec![json!("a"), json!(1), json!([2, 3]), json!(null), json!("z"), json!(true)],
+        "substr" => vec![json!("héllo"), json!(1), json!(2)],
+        "log" => vec![json!("logged")],
+        "var" => vec![json!("a"), json!("dflt")],
+        "missing" => vec![json!("a"), json!("zz"), json!("b.c"), json!("q"), json!("a"), json!("w")],
+        "missing_some" => vec![json!(1), json!(["a", "zz"])],
+        "if" | "?:" => vec![json!(false), json!("t1"), json!(0), json!("t2"), json!(true), json!("t3"), json!("else")],
+        "or" => vec![json!(0), json!(""), json!([]), json!("x"), json!(1), json!(2)],
+        "and" => vec![json!(1), json!("x"), json!([0]), json!(0), json!(1), json!(2)],
+        "map" => vec![json!([1, 2, 3]), json!({"*": [{"var": ""}, 2]})],
+        "filter" => vec![json!([1, 0, 3]), json!({"var": ""})],
+        "reduce" => vec![json!([1, 2, 3]), json!({"+": [{"var": "current"}, {"var": "accumulator"}]}), json!(10)],
+        "all" | "some" | "none" => vec![json!([1, 2, 0]), json!({">": [{"var": ""}, 0]})],
+        _ => vec![],
+    };
+    let mut out: Vec<Value> = base.iter().take(n).cloned().collect();
+    while out.len() < n {
+        out.push(json!(1));
+    }
+    out
+}
+
+fn data_set() -> Vec<Value> {
+    vec![
+        Value::Null,
+        json!(1),
+        json!("s"),
+        json!([1, 2, "x"]),
+        json!({"a": 1, "b": {"c": 2}, "var": "a", "x": {"var": "a"}, "secret": 424242}),
+        json!({"a": {"log": "LEAK-data"}, "": 5, "0": "zero"}),
+        json!([{"a": 1}, {"+": [1, 2]}]),
+        json!(true),
+    ]
+}
+
+// =======================================================================================
+// C02
+
+fn near_miss_keys(op: &str) -> Vec<String> {
+    let mut v = vec![
+        format!(" {}", op),
+        format!("{} ", op),
+        format!("\t{}", op),
+        format!("{}\u{A0}", op),
+        format!("{}{}", op, op.chars().last().unwrap()),
+        format!("x{}", op),
+        format!("{}x", op),
+        format!("{}\u{0}", op),
+        format!("\u{FEFF}{}", op),
+        op.to_uppercase(),
+        {
+            let mut c = op.chars();
+            let f = c.next().unwrap();
+            format!("{}{}", f.to_uppercase(), c.as_str())
+        },
+        op.chars().take(op.chars().count().saturating_sub(1)).collect::<String>(),
+        format!("{}.", op),
+        format!("${}", op),
+    ];
+    // look-alikes
+    v.push(op.replace('a', "\u{430}").replace('o', "\u{43E}").replace('i', "\u{456}").replace('=', "\u{FF1D}").replace('!', "\u{FF01}").replace('<', "\u{FF1C}").replace('+', "\u{FF0B}"));
+    v.retain(|k| !refsem::is_operator(k));
+    v.sort();
+    v.dedup();
+    v
+}
+
+fn c02_literal(ctx: &mut Ctx, v: &Value, datas: &[Value], class: &str) {
+    debug_assert!(refsem::as_op(v).is_none());
+    for d in datas {
+        let (obs, _) = ctx.check("c02.model", v, d);
+        ctx.mon("c02.identity").observed += 1;
+        ctx.mon("c02.identity").judged += 1;
+        let same = match &obs.out {
+            Outcome::Ok(r) => r.to_string() == v.to_string(),
+            _ => false,
+        };
+        if !same {
+            ctx.violation("c02.identity", &format!("not-identity:{}:{}", class, type_name(v)), v, d, json!({"ok": v}), obs.out.brief(), "a non-rule value did not evaluate to itself");
+        }
+        if !obs.logs.is_empty() {
+            ctx.violation("c02.identity", &format!("literal-logged:{}", class), v, d, json!("no output"), json!(obs.logs), "something inside a literal was evaluated (a log line appeared)");
+        }
+    }
+    ctx.cell(&format!("literal:{}", class));
+    if class != "plain" {
+        ctx.mark_nontrivial_key(&format!("c02:{}", v));
+    }
+}
+
+pub fn c02(ctx: &mut Ctx) {
+    let datas = data_set();
+    let ops = all_ops();
+    let mut idx = 0u64;
+    // (a) plain literals of V
+    for v in v_all() {
+        idx += 1;
+        if ctx.mine(idx) && refsem::as_op(&v).is_none() {
+            c02_literal(ctx, &v, &datas, "plain");
+        }
+    }
+    // near-miss single-key objects, multi-key objects, operation-shaped members of arrays / objects
+    let members: Vec<Value> = vec![json!({"log": "LEAK-lit"}), json!({"/": [1]}), json!({"var": "a"}), json!({"+": [1, 2]}), json!({"if": [true, {"log": "LEAK-if"}]}), json!({"var": [[]]})];
+    for op in ops.iter() {
+        let args_list = vec![Value::Array(valid_tuple(op, 2)), json!("a"), json!([{"log": "LEAK-arg"}]), json!(null)];
+        for k in near_miss_keys(op) {
+            for a in args_list.iter() {
+                idx += 1;
+                if ctx.mine(idx) {
+                    c02_literal(ctx, &obj(vec![(k.clone(), a.clone())]), &datas, "near-miss-key");
+                }
+            }
+        }
+        // multi-key objects holding operator keys
+        for op2 in ops.iter() {
+            idx += 1;
+            if !ctx.mine(idx) || op == op2 {
+                continue;
+            }
+            let v = obj(vec![(op.to_string(), Value::Array(valid_tuple(op, 2))), (op2.to_string(), json!([{"log": "LEAK-multi"}]))]);
+            c02_literal(ctx, &v, &datas[..3], "two-operator-keys");
+        }
+        idx += 1;
+        if ctx.mine(idx) {
+            let v = obj(vec![(op.to_string(), Value::Array(valid_tuple(op, 2))), ("zzz".to_string(), json!(1))]);
+            c02_literal(ctx, &v, &datas, "operator-key-plus-other");
+            let v = obj(vec![(op.to_string(), json!({"log": "LEAK-m"})), ("".to_string(), json!({"/": [1]}))]);
+            c02_literal(ctx, &v, &datas, "operator-key-plus-other");
+        }
+    }
+    c02_literal(ctx, &json!({}), &datas, "empty-object");
+    c02_literal(ctx, &json!({"": [1]}), &datas, "near-miss-key");
+    for m in members.iter() {
+        idx += 1;
+        if !ctx.mine(idx) {
+            continue;
+        }
+        c02_literal(ctx, &json!([m]), &datas, "array-with-operation-member");
+        c02_literal(ctx, &json!([1, [m, {"k": m}]]), &datas, "array-with-operation-member");
+        c02_literal(ctx, &json!({"k": m, "j": [m]}), &datas, "object-with-operation-member");
+        c02_literal(ctx, &json!({ "k": m }), &datas, "object-with-operation-member");
+        // literals as operands of real operators stay uninterpreted
+        for rule in [json!({"cat": [[m]]}), json!({"merge": [[m], {"k": m, "j": 1}]}), json!({"!!": [[m]]}), json!({"in": [{"k": m, "j": 1}, [[m], {"j": 1, "k": m}]]}), json!({"if": [[m], {"k": m, "z": 0}, 0]}), json!({"map": [[1], {"k": m, "z": 0}]}), json!({"==": [[m], "[object Object]"]}), json!({"var": ["nope", [m]]})] {
+            for d in datas.iter().take(5) {
+                ctx.check("c02.model", &rule, d);
+            }
+            ctx.mark_nontrivial(&rule, &Value::Null);
+            ctx.cell("literal-operand-inside-operator");
+        }
+        // the documented exception: elements of a literal array given to all/some/none ARE evaluated
+        for q in ["all", "some", "none"] {
+            let rule = json!({ q: [[m, {"var": "a"}], {"!!": [{"var": ""}]}] });
+            for d in datas.iter() {
+                ctx.check("c02.model", &rule, d);
+            }
+            ctx.cell("quantifier-literal-array-elements");
+        }
+    }
+    // (b) dispatch: a distinguishing tuple per operator
+    let d = json!({"a": 7, "b": {"c": 2}, "arr": [3, 0, 5], "s": "héllo"});
+    for op in ops.iter() {
+        let n = match *op {
+            "!" | "!!" | "log" => 1,
+            "reduce" | "substr" | "<" | "<=" | ">" | ">=" => 3,
+            "if" | "?:" => 5,
+            "+" | "*" | "max" | "min" | "cat" | "merge" | "missing" | "or" | "and" => 4,
+            _ => 2,
+        };
+        let rule = json!({ *op: valid_tuple(op, n) });
+        let (_, mo) = ctx.check("c02.dispatch", &rule, &d);
+        // is the tuple distinguishing? (model under op differs from model under every other operator)
+        let mut distinguishing = true;
+        for other in ops.iter() {
+            if other == op || (matches!(*op, "if" | "?:") && matches!(*other, "if" | "?:")) {
+                continue;
+            }
+            let (mo2, _) = refsem::model(&json!({ *other: valid_tuple(op, n) }), &d);
+            if mo2 == mo && mo != MOut::Err {
+                distinguishing = false;
+            }
+        }
+        ctx.cell(if distinguishing { "dispatch:distinguishing-tuple" } else { "dispatch:non-distinguishing-tuple" });
+        ctx.mark_nontrivial(&rule, &d);
+        ctx.sample(json!({"rule": rule, "model": crate::ctx::model_json(&mo)}));
+    }
+    ctx.exhaustive_parts.push("35 operator names x 14 near-miss key forms x 4 operand shapes x 8 data values; all ordered pairs of operator keys in two-key objects".into());
+    // random: literal-heavy nesting inside operator arguments
+    let n = ctx.budget(4_000, 800_000);
+    let mut g = RuleGen::new();
+    g.probes = 0;
+    g.poison = 0;
+    for _ in 0..n {
+        let dd = rand_data(&mut ctx.rng, 3, 10, &mut 0);
+        if ctx.rng.chance(1, 2) {
+            // a random non-rule value: multi-key / unknown-key objects with operation-shaped members
+            let mut v = rand_value(&mut ctx.rng, 3);
+            if let Value::Object(m) = &mut v {
+                if m.len() == 1 && ctx.rng.chance(1, 2) {
+                    m.insert("pad".into(), json!({"log": "LEAK-pad"}));
+                }
+            }
+            if refsem::as_op(&v).is_none() {
+                c02_literal(ctx, &v, &[dd], "random");
+                continue;
+            }
+        }
+        let rule = g.rule(&mut ctx.rng, &dd, 3, 3);
+        ctx.check("c02.model", &rule, &dd);
+    }
+}
+
+// =======================================================================================
+// C03
+
+fn same_outcome(a: &Outcome, b: &Outcome) -> bool {
+    match (a, b) {
+        (Outcome::Ok(x), Outcome::Ok(y)) => x.to_string() == y.to_string(),
+        (Outcome::Err(_), Outcome::Err(_)) => true,
+        (Outcome::Panic(_), Outcome::Panic(_)) => true, // totality is C01's subject
+        _ => false,
+    }
+}
+
+pub fn c03(ctx: &mut Ctx) {
+    let ops = all_ops();
+    let datas = vec![Value::Null, json!({"a": 1, "b": {"c": 2}, "k": "a"}), json!([10, 20, 30]), json!("data-string")];
+    let v = v_all();
+    let mut idx = 0u64;
+    let per_cell = if ctx.thorough() { 200 } else { 8 };
+    for op in ops.iter() {
+        for n in 0..=6usize {
+            idx += 1;
+            if !ctx.mine(idx) {
+                continue;
+            }
+            let documented = refsem::arity_ok(op, n) == Some(true);
+            let mut tuples: Vec<(Vec<Value>, bool)> = vec![(valid_tuple(op, n), true)];
+            for _ in 0..per_cell {
+                let t: Vec<Value> = (0..n)
+                    .map(|_| loop {
+                        let x = ctx.rng.pick(&v).clone();
+                        if refsem::as_op(&x).is_none() || ctx.rng.chance(1, 4) {
+                            break x;
+                        }
+                    })
+                    .collect();
+                tuples.push((t, false));
+            }
+            for (t, type_valid) in tuples.iter() {
+                let rule = json!({ *op: t });
+                for d in datas.iter() {
+                    let (obs, _mo) = ctx.check("c03.model", &rule, d);
+                    ctx.mon("c03.arity").observed += 1;
+                    ctx.mon("c03.arity").judged += 1;
+                    let is_ok = matches!(obs.out, Outcome::Ok(_));
+                    if !documented && !matches!(obs.out, Outcome::Err(_)) {
+                        ctx.violation("c03.arity", &format!("accepted-undocumented-count:{}:{}", op, n), &rule, d, json!("an error"), obs.out.brief(), "an operand count outside the documented set was not rejected with an error");
+                    }
+                    if documented && *type_valid && !is_ok {
+                        ctx.violation("c03.arity", &format!("rejected-documented-count:{}:{}", op, n), &rule, d, json!("a value"), obs.out.brief(), "a documented operand count with type-valid operands was rejected");
+                    }
+                    ctx.cell(&format!("arity:{}:{}:{}", op, n, if is_ok { "ok" } else { "err" }));
+                }
+            }
+            ctx.mark_nontrivial_key(&format!("c03:{}:{}:bracketed", op, n));
+        }
+        // bracket-less form: {op: x} == {op: [x]} for every non-array x
+        for x in v.iter() {
+            idx += 1;
+            if !ctx.mine(idx) || x.is_array() {
+                continue;
+            }
+            for d in datas.iter() {
+                let bare = json!({ *op: x });
+                let wrapped = json!({ *op: [x] });
+                let (o1, _) = ctx.check("c03.model", &bare, d);
+                let (o2, _) = ctx.check("c03.model", &wrapped, d);
+                ctx.mon("c03.unary-form").observed += 1;
+                ctx.mon("c03.unary-form").judged += 1;
+                if !same_outcome(&o1.out, &o2.out) || o1.logs != o2.logs {
+                    ctx.violation("c03.unary-form", &format!("bare-vs-bracketed:{}:{}", op, type_name(x)), &bare, d, json!({"bracketed": o2.out.brief(), "logs": o2.logs}), json!({"bare": o1.out.brief(), "logs": o1.logs}), "{op: x} does not mean {op: [x]}");
+                }
+                ctx.cell(&format!("unary-form:{}:{}", op, if matches!(o1.out, Outcome::Ok(_)) { "ok" } else { "err" }));
+            }
+            ctx.mark_nontrivial_key(&format!("c03:{}:bare:{}", op, type_name(x)));
+        }
+        // bare operand that is itself an operation: {"var": {"var": "k"}}
+        idx += 1;
+        if ctx.mine(idx) {
+            for inner in [json!({"var": "k"}), json!({"cat": ["a"]}), json!({"log": "p-inner"}), json!({"merge": [[1, 2]]})] {
+                for d in datas.iter() {
+                    let bare = json!({ *op: inner });
+                    let wrapped = json!({ *op: [inner] });
+                    let (o1, _) = ctx.check("c03.model", &bare, d);
+                    let (o2, _) = ctx.check("c03.model", &wrapped, d);
+                    ctx.mon("c03.unary-form").observed += 1;
+                    ctx.mon("c03.unary-form").judged += 1;
+                    if !same_outcome(&o1.out, &o2.out) || o1.logs != o2.logs {
+                        ctx.violation("c03.unary-form", &format!("bare-vs-bracketed:{}:operation", op), &bare, d, json!({"bracketed": o2.out.brief(), "logs": o2.logs}), json!({"bare": o1.out.brief(), "logs": o1.logs}), "{op: x} does not mean {op: [x]}");
+                    }
+                }
+            }
+        }
+    }
+    ctx.exhaustive_parts.push("35 operators x operand counts 0..6 x {type-valid tuple, random tuples} x 4 data values; 35 operators x every non-array corpus value in bracket-less form".into());
+    ctx.sample(json!({"cell": "operator x count x form", "example": {"<": [1, 2, 3, 4]}, "documented": false}));
+    ctx.sample(json!({"cell": "bracket-less", "example": [{"var": {"var": "k"}}, {"var": [{"var": "k"}]}]}));
+}
